@@ -79,6 +79,9 @@ pub fn cursor(x: &Sx) -> Cursor {
 
 /// set while a store configured with strip_temp_ids(false) is exercised (C03): references of kind 2
 /// go by handle, because temporary ids do not resolve there
+/// set by the store properties whose model knows operation 9 (a key declared without data): the
+/// generator then emits it
+pub static BARE_KEYS: std::sync::atomic::AtomicBool = std::sync::atomic::AtomicBool::new(false);
 pub static NO_TEMP_REFS: std::sync::atomic::AtomicBool = std::sync::atomic::AtomicBool::new(false);
 fn temp_refs_on() -> bool {
     !NO_TEMP_REFS.load(std::sync::atomic::Ordering::Relaxed)
@@ -306,6 +309,16 @@ pub fn apply(store: &mut AnnotationStore, op: &Sx) -> Sx {
                 Some(Err(_)) => l(vec![a(0)]),
                 Some(Ok(())) => l(vec![a(1)]),
             }
+        }
+        9 => {
+            // a key declared on its own: AnnotationDataSet::insert(DataKey::new(id)) on an existing set
+            let set = temp_set(store, op.nth(1));
+            let key = kid(op.nth(2).int());
+            let r = guard(|| {
+                let ds: Result<&mut AnnotationDataSet, StamError> = store.get_mut(set);
+                ds.and_then(|ds| ds.insert(DataKey::new(key)))
+            });
+            outcome(r, |h| h.as_usize())
         }
         14 => {
             // shrink_to_fit: a performance-only call (also made at the end of every load)
@@ -952,6 +965,11 @@ impl Shadow {
         }
         if pick == 1 {
             return l(vec![a(1), a(rng.below(4) as i64)]);
+        }
+        if BARE_KEYS.load(std::sync::atomic::Ordering::Relaxed) && !self.live_sets().is_empty() && rng.chance(1, 10) {
+            let ls = self.live_sets();
+            let h = *rng.pick(&ls);
+            return l(vec![a(9), self.set_ref(rng, h), a(rng.below(5) as i64)]);
         }
         if pick == 2 {
             return l(vec![a(2), self.gen_dbuild(rng, cfg)]);
